@@ -386,11 +386,17 @@ fn single_quote(s: &str) -> Cow<'_, str> {
         return Cow::Borrowed("''");
     }
 
-    let mut result = String::with_capacity(s.len());
+    // A lone single quote is just backslash-escaped.
+    if s == "'" {
+        return Cow::Borrowed("\\'");
+    }
+
+    let mut result = String::with_capacity(s.len() + 2);
 
     // Go through the string; put everything in single quotes except for
     // the single quote character itself. It will get escaped outside
-    // all quoting.
+    // all quoting. Empty parts are kept as '' so that the result is the
+    // same text other shells produce.
     let mut first = true;
     for part in s.split('\'') {
         if !first {
@@ -400,11 +406,9 @@ fn single_quote(s: &str) -> Cow<'_, str> {
             first = false;
         }
 
-        if !part.is_empty() {
-            result.push('\'');
-            result.push_str(part);
-            result.push('\'');
-        }
+        result.push('\'');
+        result.push_str(part);
+        result.push('\'');
     }
 
     Cow::Owned(result)
